@@ -418,6 +418,8 @@ pub fn run_c18(ctx: &Ctx, sink: &mut Sink) {
             let nm = b"caf\xe9".to_vec();
             map.push((nm.clone(), observe_root(&nm, &sc.dir.join(std::ffi::OsStr::from_bytes(&nm)))));
         }
+        // the empty string as an operand: a starting point that cannot be examined (diagnostic, status non-zero)
+        map.push((vec![], "=missing".to_string()));
         let wm: Vec<String> = map.iter().map(|(_, w)| w.clone()).collect();
         let wm = wm.join(";");
         let operand_ok = |n: &[u8]| std::str::from_utf8(n).is_ok() && (n == b"-" || (!n.starts_with(b"-") && n != b"!" && n != b"("));
